@@ -2,7 +2,7 @@
    transformers in the generated builtin order -> hash -> name references -> sort -> strip).
    Statements only: every proof is `exact lemma` (lemmas in Res/PipelineProofs.v).
    These theorems extend the coverage of C02, C11, C19, C01 and C07 to whole builds. *)
-From KV Require Import Res.Pipeline Res.PipelineProofs Res.PipelineOrderProofs Res.PipelineFrameProofs Res.PipelineGenProofs Res.PipelinePermProofs.
+From KV Require Import Res.Pipeline Res.PipelineProofs Res.PipelineOrderProofs Res.PipelineFrameProofs Res.PipelineGenProofs Res.PipelinePermProofs Res.PipelineWfProofs.
 From KV Require Res.Generators Res.Hash.
 From KV Require Import Yaml.FieldSpecSpec Yaml.FieldSpecProofs.
 From KV Require Res.Labels Res.Hygiene.
@@ -72,3 +72,26 @@ Theorem PIPE_permute_multiset_partial :
     exists m1', (do m <- accumulate nonstr t'; mapM (hash_res nonstr) m) = Ok m1' /\ Permutation m1 m1'.
 Proof. exact accumulate_hash_perm. Qed.
 Print Assumptions PIPE_permute_multiset_partial.
+
+
+(* ---------- C11: wrapping, without a hypothesis on the accumulated ids ----------
+   For trees of well-formed documents ([tree_wf], Res/PipelineWfProofs.v: wf_node documents; per layer no
+   `namespace:` directive, no custom labels[].fields, create-only generators with good names, comma-free
+   namePrefix / nameSuffix) the ids a kustomization accumulates are pairwise distinct - Append / AppendAll check
+   them, prefix and suffix rewrite the names of one kind uniformly and injectively, labels and annotations never
+   reach kind, apiVersion, name or namespace (obligation label_tbl_clear on the generated tables) - hence a
+   directive-less wrapper layer is transparent. *)
+Theorem PIPE_accumulate_ids_distinct :
+  forall nonstr t m, tree_wf t -> accumulate nonstr t = Ok m -> Forall W m /\ distinct_ids m.
+Proof. exact accumulate_Inv. Qed.
+Print Assumptions PIPE_accumulate_ids_distinct.
+
+Theorem PIPE_wrap_wellformed :
+  forall nonstr name o n d ents,
+    tree_wf (PDir n d ents) -> build nonstr o (wrap name (PDir n d ents)) = build nonstr o (PDir n d ents).
+Proof. exact build_wrap_wf. Qed.
+Print Assumptions PIPE_wrap_wellformed.
+
+Theorem Gen_label_rows_clear_of_identity : clear_of_identity label_tbl = true.
+Proof. exact label_tbl_clear. Qed.
+Print Assumptions Gen_label_rows_clear_of_identity.
